@@ -23,7 +23,7 @@ from ..model import AnalysisError, Program, dotted, kwarg, const, walk_no_nested
 from ..report import Result
 from .. import rows as R
 from . import ix_common as I
-from .C06 import ix_agg
+from .C06 import ix_agg, agg_every_path
 
 RNG_OK_PREFIX = ("np.random.", "numpy.random.")
 RNG_FORBIDDEN = ("default_rng", "RandomState", "Generator", "SeedSequence", "seed")
@@ -250,6 +250,20 @@ def diag(prog: Program, res: Result) -> None:
                         f"tensor `len({shape_name})`")
             else:
                 res.bad("DIAG", short, desc, prog.loc(fi, t), f"the tiled column is `{ast.unparse(src)}`, not 0..N-1 for the N diagonal elements")
+        if short.endswith("sptendiag"):
+            zdesc = "user-supplied diagonal values reach the sparse result through a zero-dropping path (aggregating constructor or a != 0 filter)"
+            ctor = [c for c in ast.walk(fn) if isinstance(c, ast.Call) and (dotted(c.func) or "").split(".")[-1] in ("from_aggregator", "sptensor")
+                    and len(c.args) >= 2]
+            filt = any(isinstance(c, ast.Compare) and isinstance(c.ops[0], ast.NotEq) and const(c.comparators[0]) == 0 for c in ast.walk(fn)) or \
+                any(isinstance(c, ast.Call) and (dotted(c.func) or "").split(".")[-1] in ("nonzero", "flatnonzero") for c in ast.walk(fn))
+            if not ctor:
+                res.undecided("DIAG", short, zdesc, prog.loc(fi))
+            elif (dotted(ctor[-1].func) or "").split(".")[-1] == "from_aggregator" or filt:
+                res.ok("DIAG", short, zdesc, prog.loc(fi, ctor[-1]))
+            else:
+                res.bad("DIAG", short, zdesc, prog.loc(fi, ctor[-1]),
+                        f"`{ast.unparse(ctor[-1])[:70]}` stores the given elements as they are: a zero among them becomes an explicit stored zero "
+                        "(nnz too large, vals contains 0) - the plain constructor does no validation")
         desc = "constructed extent per mode is max(number of elements, requested extent); cubical of order N without a shape"
         gens = [n for n in ast.walk(fn) if isinstance(n, ast.Assign) and len(n.targets) == 1 and isinstance(n.targets[0], ast.Name)
                 and n.targets[0].id == shape_name] if shape_name else []
@@ -296,10 +310,11 @@ def check(prog: Program, res: Result, tier: str) -> None:
     res.explanation = __doc__.split("\n\n", 1)[1]
     res.assumptions = ["a generator callable applied to a shape returns an array of that shape (documented contract of from_function)",
                        "np.unique(axis=0) returns pairwise distinct rows; prefix slicing keeps them distinct"]
-    res.floors = {"GEN-fill": 5, "GEN-uniq": 1, "GEN-cnt": 1, "DIAG": 4, "IX-agg": 3, "RNG": 8}
+    res.floors = {"GEN-fill": 5, "GEN-uniq": 1, "GEN-cnt": 1, "DIAG": 5, "IX-agg": 3, "RNG": 8}
     gen_fill(prog, res)
     gen_sparse(prog, res)
     diag(prog, res)
     ix_agg(prog, res)
+    agg_every_path(prog, res)
     agg_drop(prog, res)
     rng_rule(prog, res)
